@@ -25,7 +25,8 @@ ASSUMPTIONS = [
 FLOORS = {"quick": {"getscript-cases": 20000, "listscripts-cases": 20000,
                     "served-quoted": 15000, "served-literal": 20000,
                     "getscript-cases-segmented-with-debug": 10000, "getscript-big-cases": 20,
-                    "listscripts-cases-segmented-with-debug": 10000},
+                    "listscripts-cases-segmented-with-debug": 10000,
+                    "listings-right-after-a-getscript-on-the-same-connection": 3000},
           "thorough": {"getscript-cases": 150000, "listscripts-cases": 150000,
                        "served-quoted": 100000, "served-literal": 150000,
                        "getscript-cases-segmented-with-debug": 80000, "getscript-big-cases": 20,
@@ -158,6 +159,7 @@ def run_bodies(shard, res: Result):
 
 
 LISTS = [0]
+PRELUDES = [0]
 
 
 def list_once(names, active, how, seg=None, debug=None):
@@ -166,6 +168,19 @@ def list_once(names, active, how, seg=None, debug=None):
     LISTS[0] += 1
     srv.active_marker = (b"ACTIVE", b"active", b"ACTIVE", b"Active")[LISTS[0] % 4]
     sess, r = mslab.authed_session(srv, seg, debug=debug)
+    if names and LISTS[0] % 3 == 0:
+        # the client has just downloaded a script on this connection (one without a final
+        # line break, or an empty one, served as a literal): the listing that follows is
+        # decoded like any other
+        srv.scripts[names[0]] = (b"keep;", b"", b"# no final newline")[(LISTS[0] // 3) % 3]
+        keep = srv.__dict__.get("how_script")
+        srv.how_script = lambda: "literal"
+        sess.call("getscript", names[0].decode("utf-8", "surrogateescape"))
+        if keep is None:
+            srv.__dict__.pop("how_script", None)
+        else:
+            srv.how_script = keep
+        PRELUDES[0] += 1
     out = sess.call("listscripts")
     want_active = active.decode("utf-8") if active else None
     want_others = [n.decode("utf-8") for n in names if n != active]
@@ -201,6 +216,7 @@ def run_names(shard, res: Result):
         active = rng.choice(names) if names and rng.random() < 0.6 else None
         for how in ("quoted", "literal"):
             ok, out, sess = list_once(names, active, how)
+            res.counters["listings-right-after-a-getscript-on-the-same-connection"] = PRELUDES[0]
             res.count("listscripts-cases")
             res.count("served-" + how)
             res.case(repr((names, active, how)))
@@ -272,6 +288,7 @@ def replay(witness, res: Result):
         names = [unjson_bytes(n) for n in witness["stored"]]
         active = unjson_bytes(witness["active"]) if witness["active"] else None
         ok, out, sess = list_once(names, active, how)
+        res.counters["listings-right-after-a-getscript-on-the-same-connection"] = PRELUDES[0]
         print("listscripts ->", out, "ok" if ok else "DIFFERS")
         if not ok:
             res.violation({"op": "listscripts", "encoding": how,
